@@ -61,7 +61,11 @@ def main():
         step = max(1, len(allc) // max(1, a.max))
         judged = 0
         found = None
-        for f, i, c in allc[::step]:
+        # first a spread sample of --max cases, then (time permitting) every remaining case
+        first = allc[::step]
+        chosen = set(range(0, len(allc), step))
+        rest = [x for k, x in enumerate(allc) if k not in chosen]
+        for f, i, c in first + rest:
             if time.time() - t0 > 600:
                 break
             try:
